@@ -6,7 +6,7 @@ import glob, json, os, re, subprocess, sys, time
 
 ROOT = os.path.dirname(os.path.dirname(os.path.abspath(__file__)))
 REPO = "/repo"
-ALSO = {"C16-3": ["C16", "C17"]}
+ALSO = {"C16-3": ["C16", "C17"], "C16-9": ["C16", "C17"], "C18-8": ["C18", "C06"], "C12-8": ["C12", "C13"]}   # changes whose anchor function belongs to another property as well
 
 
 def sh(cmd, cwd=None, timeout=3600, env=None):
